@@ -406,7 +406,9 @@ impl Deb822 {
                     ));
                     current = vec![];
                 }
-                COMMENT | ERROR => {
+                // comment lines of an already reformatted document sit directly under the
+                // root, each followed by its newline
+                COMMENT | ERROR | NEWLINE => {
                     current.push(c);
                 }
                 EMPTY_LINE => {
